@@ -35,6 +35,13 @@ func verifSub(site string, s *Subscription) {
 		}
 		site = "populate.deleted"
 	}
+	if site == "sub.event" {
+		// an event processed for a subscription that Unsend marked as not sent
+		if s.state != stateReady {
+			return
+		}
+		site = "sub.eventUnsent"
+	}
 	if site == "onLoaded" {
 		if s.state != stateDisposed {
 			return
